@@ -52,6 +52,11 @@ def check(ctx):
         "equality of records across BGZF block boundaries and pysam's readline contract",
         "that gzip.open(..., 'rt') yields the same lines as open() on the decompressed file (standard library)",
     ]
+    # mechanisms this property rests on (see shared.py): a change there is reported here as well
+    from . import shared as _sh
+
+    _sh.gaf_reader(ctx)
+    _sh.graph_loader(ctx)
 
 
 def r17_1(ctx):
